@@ -528,6 +528,46 @@ func errnoSites(repo string, files []string) [][2]string {
 	return out
 }
 
+
+// every request the library queues on a poller, with the priority it asks for: (file, function, priority)
+func triggerSites(repo string, files []string) [][3]string {
+	var out [][3]string
+	for _, file := range files {
+		f, err := parser.ParseFile(fset, filepath.Join(repo, file), nil, 0)
+		if err != nil {
+			fail("trigger_priorities_as_modelled", "parse error: "+err.Error())
+			continue
+		}
+		for _, d := range f.Decls {
+			fd, ok := d.(*ast.FuncDecl)
+			if !ok || fd.Body == nil {
+				continue
+			}
+			name := fd.Name.Name
+			if fd.Recv != nil && len(fd.Recv.List) == 1 {
+				name = strings.TrimPrefix(src(fd.Recv.List[0].Type), "*") + "." + name
+			}
+			ast.Inspect(fd.Body, func(n ast.Node) bool {
+				c, ok := n.(*ast.CallExpr)
+				if !ok {
+					return true
+				}
+				se, ok := c.Fun.(*ast.SelectorExpr)
+				if !ok || se.Sel.Name != "Trigger" || len(c.Args) == 0 {
+					return true
+				}
+				prio := "?"
+				if a, ok := c.Args[0].(*ast.SelectorExpr); ok && src(a.X) == "queue" {
+					prio = a.Sel.Name
+				}
+				out = append(out, [3]string{file, name, prio})
+				return true
+			})
+		}
+	}
+	return out
+}
+
 // ---------------------------------------------------------------- constants
 
 func intConst(repo, file, name string) (int64, bool) {
@@ -626,6 +666,13 @@ func main() {
 	}
 	fmt.Fprintf(&b, "\nDefinition gen_errno_sites : list (string * string) := [%s].\n", strings.Join(ss, "; "))
 	b.WriteString("Lemma errno_sites_as_modelled : gen_errno_sites = errno_sites.\nProof. vm_compute. reflexivity. Qed.\n")
+	trig := triggerSites(repo, []string{"connection_unix.go", "eventloop_unix.go", "acceptor_unix.go", "client_unix.go"})
+	var ts []string
+	for _, x := range trig {
+		ts = append(ts, fmt.Sprintf("(%q, %q, %q)", x[0], x[1], x[2]))
+	}
+	fmt.Fprintf(&b, "\nDefinition gen_trigger_priorities : list (string * string * string) := [\n  %s].\n", strings.Join(ts, ";\n  "))
+	b.WriteString("Lemma trigger_priorities_as_modelled : gen_trigger_priorities = trigger_priorities.\nProof. vm_compute. reflexivity. Qed.\n")
 	if err := os.WriteFile(*out, []byte(b.String()), 0o644); err != nil {
 		fmt.Fprintln(os.Stderr, err)
 		os.Exit(2)
